@@ -43,9 +43,24 @@ PROBLEMS = [
 SIZES = [{"i": 2, "j": 3, "k": 2}, {"i": 4, "j": 3, "k": 2}, {"i": 2, "j": 5, "k": 3}, {"i": 3, "j": 3, "k": 3}]
 
 
+OPERATORS = [("*", "r", "ds"), ("+", "l", "ss"), ("-", "l", "d1s0"), ("*", "l", "ss")]
+N_PROBLEMS = len(PROBLEMS) + len(OPERATORS)
+
+
 def make_call(pidx, variant, backend):
     import itertools
 
+    pidx = pidx % N_PROBLEMS
+    if pidx >= len(PROBLEMS):
+        # operator with a scalar: every call uses its own number (2.0, 3.5, 5.0, 6.5 by variant)
+        op, side, fmt = OPERATORS[pidx - len(PROBLEMS)]
+        dims = (2, 3)
+        dok = {c: float((c[0] * 3 + c[1] + variant) % 4 + 1) / 2 for c in itertools.product(range(2), range(3)) if (c[0] + c[1] + variant) % 3}
+        modes, ordering = C.fmt_parts(fmt)
+        levels, vals = C.levels_from_dok(dok, dims, modes, ordering)
+        return {"entry": "operator", "op": op, "side": side, "scalar": 2.0 + 1.5 * (variant % 4), "backend": "llvm",
+                "inputs": {"t": {"dims": list(dims), "fmt": fmt, "stored": {"levels": levels, "vals": vals}}},
+                "problem": pidx, "variant": variant, "assignment": f"operator {op} scalar on the {side}", "out_fmt": ""}
     text, out_fmt, ins = PROBLEMS[pidx % len(PROBLEMS)]
     sizes = SIZES[variant % len(SIZES)]
     inputs = {}
@@ -66,11 +81,11 @@ def make_call(pidx, variant, backend):
 @st.composite
 def controlled_cases(draw, tier):
     n = draw(st.integers(2, 4))
-    base = draw(st.integers(0, 9))
+    base = draw(st.integers(0, N_PROBLEMS - 1))
     calls = []
     for _ in range(n):
         same = draw(st.integers(0, 2)) != 0
-        p = base if same else draw(st.integers(0, 9))
+        p = base if same else draw(st.integers(0, N_PROBLEMS - 1))
         backend = "cffi" if draw(st.integers(0, 11)) == 0 else "llvm"
         calls.append([p, draw(st.integers(0, 3)), backend])
     kind = draw(st.sampled_from(["random", "random", "round_robin", "round_robin", "bursts"]))
@@ -90,10 +105,10 @@ def controlled_cases(draw, tier):
 @st.composite
 def stress_cases(draw, tier):
     n = draw(st.integers(8, 32))
-    hot = draw(st.lists(st.integers(0, 9), min_size=1, max_size=3))
+    hot = draw(st.lists(st.integers(0, N_PROBLEMS - 1), min_size=1, max_size=3))
     calls = []
     for _ in range(n):
-        p = draw(st.sampled_from(hot)) if draw(st.integers(0, 3)) else draw(st.integers(0, 9))
+        p = draw(st.sampled_from(hot)) if draw(st.integers(0, 3)) else draw(st.integers(0, N_PROBLEMS - 1))
         backend = "cffi" if draw(st.integers(0, 24)) == 0 else "llvm"
         calls.append([p, draw(st.integers(0, 3)), backend])
     return {"mode": "stress", "calls": calls, "rounds": 3 if tier == "quick" else 6}
@@ -103,7 +118,7 @@ def compare(case, seq, conc, tag):
     fails = []
     for k, (s, c) in enumerate(zip(seq, conc)):
         call = case["calls"][k]
-        d = f"{tag}: call {k} = problem {call[0]} ({PROBLEMS[call[0] % len(PROBLEMS)][0]}) variant {call[1]} {call[2]}"
+        d = f"{tag}: call {k} = problem {call[0]} ({make_call(*call)['assignment']}) variant {call[1]} {call[2]}"
         if "raised" in s:
             raise bridge.HarnessError(f"sequential reference call failed: {d}: {s['raised']}")
         if c is None:
@@ -117,7 +132,7 @@ def compare(case, seq, conc, tag):
 
 def check(case, worker):
     workload = [make_call(*c) for c in case["calls"]]
-    probs = [c[0] % len(PROBLEMS) for c in case["calls"]]
+    probs = [c[0] % N_PROBLEMS for c in case["calls"]]
     distinct = len(set((p, c[2]) for p, c in zip(probs, case["calls"])))
     raced = any(probs.count(p) >= 2 for p in set(probs))
     labels = {f"mode:{case['mode']}", f"threads:{min(len(workload), 16)}"}
